@@ -163,7 +163,7 @@ CFGS = [
     dict(structured=True, max_reps=1, prod_kinds=("hadamard",)),
     dict(structured=False, multi_part_prob=0.6),
     dict(defect="nonsmooth", out_units=2),
-    dict(defect="nondecomp", out_units=2),
+    dict(defect="nondecomp", out_units=2), dict(defect="nondecomp3", out_units=2), dict(defect="nonsmooth-const", out_units=2),
     dict(const_factor_prob=0.4, structured=True),
     dict(structured=True, id_mode="sparse"),
     dict(structured=False, id_mode="random", multi_part_prob=0.4),
@@ -178,7 +178,7 @@ def run_case(case) -> Result:
     sigs = set()
     for i in range(case["n"]):
         over = dict(rng.choice(CFGS))
-        over["nvars"] = rng.randint(2, 6)
+        over["nvars"] = rng.randint(3 if over.get("defect") == "nondecomp3" else 2, 6)
         over.setdefault("out_units", rng.choice([1, 2]))
         over["kinds"] = ("cat", "embedding", "gaussian")
         cfg = gen.GenCfg(**over)
